@@ -27,6 +27,11 @@ C15.xfr    check_stream calls a message of a zone-transfer stream an answer
            (third result true) only on paths on which is_answer held for it
            or its question section was seen to be empty (RFC 5936 2.2.2) --
            in every stream state, not only for the first message.
+C15.raise  the stream transport keeps one response timeout in effect per
+           connection; accepting a further request never *raises* it while
+           other requests are pending (it is set freely only when the table
+           is empty, otherwise to the minimum of old and new): no pending
+           request waits longer than its own limit.
 C15.once   stream demux removes the slot before delivery and re-inserts only
            for unfinished streams; Queries keeps `count` in step with the
            occupied slots (decrement only when a slot was actually vacated).
@@ -60,6 +65,7 @@ def run(ctx):
     rule_synth(ctx, F)
     rule_timer(ctx, F)
     rule_xfr(ctx, F)
+    rule_raise(ctx, F)
 
 
 def _has_fact(facts, pred):
@@ -566,3 +572,48 @@ def rule_xfr(ctx, F):
                "check_stream reports a message as the answer to the transfer request on a path on which neither is_answer held "
                "nor the question section was seen empty (only the first message of a transfer is compared): a later message "
                "with the same ID and a foreign question is handed to the caller as part of its transfer", b.where(bi))
+
+
+def rule_raise(ctx, F):
+    R = "C15.raise"
+    ctx.floor(R, 1)
+    bs = [b for p, b in F.bodies.items() if re.search(r"^net::client::stream::Transport::<.*>::run::\{closure#0\}$", p)]
+    if not ctx.anchor(R, "stream::Transport::run", len(bs) == 1):
+        return
+    b = bs[0]
+    b.defs()
+    sites = []
+    for n, lst in b.partial_defs.items():
+        for d in lst:
+            if d[0] != "stmt" or b.blocks[d[1]].get("c"):
+                continue
+            st = d[3]
+            pl = st[1]
+            last = pl[-1]
+            if isinstance(last, list) and last[0] == "." and last[2] == "response_timeout":
+                sites.append((d[1], st))
+    if not ctx.anchor(R, "assignment of the response timeout in effect in Transport::run", len(sites) >= 1, b.where()):
+        return
+    for i, (bi, st) in enumerate(sorted(sites, key=lambda x: x[0])):
+        empty = any(v is True and re.search(r"Queries::<.*>::is_empty\(|is_empty\(", show(tm)) and "quer" in show(tm).lower() + str(b.vars).lower()
+                    and "is_empty(" in show(tm) for tm, v in bool_facts(b, bi, F))
+        tm = deep_strip(b.term_of_rvalue(st[2]))
+        s = show(tm)
+        def _is_min(x):
+            return x[0] == "call" and re.search(r"::min$", re.sub(r"::<.*>", "", x[1] or "")) is not None and "response_timeout" in show(x)
+        shrink = _is_min(tm)
+        if tm[0] == "phi" and not shrink and not empty:
+            # `x = if table.is_empty() { new } else { min(x, new) }`: each alternative on its own
+            n_loc = tm[1]
+            alts_ok = []
+            for d in b.defs().get(n_loc, []):
+                if b.blocks[d[1]].get("c"):
+                    continue
+                at = deep_strip(b._term_of_def(d, 0, set())) if hasattr(b, "_term_of_def") else None
+                e2 = any(v is True and "is_empty(" in show(x) for x, v in bool_facts(b, d[1], F))
+                alts_ok.append(e2 or (at is not None and _is_min(at)))
+            shrink = bool(alts_ok) and all(alts_ok)
+        ctx.ob(R, b, "timeout assignment #%d cannot lengthen the wait of a pending request" % (i + 1), empty or shrink,
+               "Transport::run replaces the response timeout in effect for the whole connection by the limit of the request it "
+               "has just accepted, whatever is pending: a transfer with a 300 ms limit waits for the 19 s of a single request "
+               "accepted after it (and the other way round)", b.where(bi))
